@@ -482,6 +482,42 @@ func c15Long(c *fw.Ctx, idx int) {
 		if !c15Judge(c, "xy.DistanceFromPointToLineString", got, best, c15Tol(maxv...)) {
 			return
 		}
+		// one interior vertex is moved in place (the ends stay where they are), and
+		// the question is asked again of the same array
+		if n >= 3 && r.Bool() {
+			j := 1 + r.Intn(n-2)
+			if r.Bool() {
+				// onto the query point, or next to it: the answer becomes 0 or small
+				xs[j], ys[j] = p[0]+float64(r.Range(-2, 2)), p[1]+float64(r.Range(-2, 2))
+			} else {
+				xs[j], ys[j] = rint(r, g), rint(r, g)
+			}
+			flat[j*stride], flat[j*stride+1] = xs[j], ys[j]
+			best = nil
+			minf := math.Inf(1)
+			for i := 0; i+1 < n; i++ {
+				if d := d2f(i); d < minf {
+					minf = d
+				}
+			}
+			lim := minf*(1+1e-6) + 1e-6
+			for i := 0; i+1 < n; i++ {
+				if d2f(i) <= lim {
+					d := exact.PointSegDist2(ep, exact.Pt(xs[i], ys[i]), exact.Pt(xs[i+1], ys[i+1]))
+					if best == nil || d.Cmp(best) < 0 {
+						best = d
+					}
+				}
+			}
+			if c.Guard("panic", func() { got = xy.DistanceFromPointToLineString(layout, geom.Coord{p[0], p[1]}, flat) }) {
+				return
+			}
+			c.Count("long_lines_edited_in_place_and_asked_again")
+			c.SetInput(map[string]any{"dim": 2, "point": fw.Fs(p[:]), "stride": stride, "vertices": n, "grid": g, "history": fmt.Sprintf("vertex %d moved in place to (%v %v) after a first query", j, xs[j], ys[j])})
+			if !c15Judge(c, "xy.DistanceFromPointToLineString", got, best, c15Tol(append(maxv, xs[j], ys[j])...)) {
+				return
+			}
+		}
 	}
 }
 
@@ -530,6 +566,39 @@ func c15xyz(c *fw.Ctx, idx int) {
 		v := lin(u, dev, 1)
 		if r.Bool() {
 			v = lin(dev, u, -1)
+		}
+		if r.Chance(1, 2) {
+			// both directions long and almost along one axis, differing in that axis
+			// by k units: the sine of the angle is |(a,b)| k / L^2, i.e. 1e-12 .. 1e-7
+			// for L ~ 2^18..2^20 - far closer to parallel than a unit deviation gets
+			class = "near-parallel-both-long"
+			ax := r.Intn(3)
+			L := float64(int64(1)<<uint(r.Range(17, 19)) + int64(r.Range(-1000, 1000)))
+			if r.Bool() {
+				L = -L
+			}
+			u = [3]float64{float64(r.Range(-3, 3)), float64(r.Range(-3, 3)), float64(r.Range(-3, 3))}
+			u[ax] = L
+			if u[(ax+1)%3] == 0 && u[(ax+2)%3] == 0 {
+				u[(ax+1)%3] = 1
+			}
+			k := float64(r.Range(1, 1<<uint(r.Range(1, 13))))
+			if r.Bool() {
+				k = -k
+			}
+			v = u
+			v[ax] += k
+			a = [3]float64{float64(r.Range(-40, 40)), float64(r.Range(-40, 40)), float64(r.Range(-40, 40))}
+			b = lin(a, u, 1)
+			switch r.Intn(3) {
+			case 0: // the lines meet at an end point of the first
+				cc = lin(a, v, -float64(r.Range(0, 1)))
+			case 1: // the second starts a few units off the first
+				cc = lin(a, off, 1)
+			default: // they cross in the middle: cc = a + u/2-ish - v/2-ish on the lattice
+				cc = lin(lin(a, u, 0.5), v, -0.5)
+				cc = [3]float64{math.Round(cc[0]), math.Round(cc[1]), math.Round(cc[2])}
+			}
 		}
 		if v == [3]float64{} {
 			v = u
